@@ -500,7 +500,7 @@ def oracle_workload(case, real, live):
                 v.append(("task-release: sources must carry the graph release time, the rest -1", tg.name))
             rels.append(srcs[0] if srcs else None)
         s = exp_start
-        if kind == "fixed" and exp_n >= 0:
+        if kind == "fixed" and exp_n is not None and exp_n >= 0:
             if rels != [s + i * exp_period for i in range(exp_n)]:
                 v.append(("release-fixed: not N releases one period apart from the start", f"{where}: {rels}"))
         elif kind == "periodic" and exp_period > 0:
@@ -509,7 +509,7 @@ def oracle_workload(case, real, live):
                 pass  # unbounded horizon (default --loop_timeout): nothing finite is described; numpy overflows / MemoryError
             elif rels != list(range(s, h_, exp_period)):
                 v.append(("release-periodic: not every period from the start until the horizon (--loop_timeout)", f"{where}: {rels}"))
-        elif kind in ("poisson", "gamma") and exp_n > 0:
+        elif kind in ("poisson", "gamma") and exp_n is not None and exp_n > 0:
             call = calls[ci] if ci < len(calls) else None
             ci += 1
             rate = fl.get("rate") or g["rate"]
@@ -682,8 +682,20 @@ def run_real(case, scratch):
     if k == "workload":
         real, live = I.run_workload(case, scratch)
         if real.get("tape_overrun"):
-            raise RuntimeError("fuzz tape too short (harness)")
-        return real, oracle_workload(case, real, live)
+            # the tape holds as many draws as the description calls for (it is sized from the model of the case):
+            # a loader that asks for more instantiates something the description does not contain
+            viol = []
+            try:
+                viol = list(oracle_workload(case, real, live))
+            except Exception:  # noqa: BLE001
+                pass
+            return real, viol + [("loader drew more random numbers than the description calls for (more releases / task graphs than described)", f"{case.get('flags')}")]
+        try:
+            return real, oracle_workload(case, real, live)
+        except (TypeError, KeyError, AttributeError, IndexError) as e:
+            # the oracle reads the loaded objects next to the description; it can only trip over objects of a
+            # kind the description does not describe (e.g. a release policy of another type than the one described)
+            return real, [("loaded objects are not of the kind the description describes (the clauses cannot be evaluated)", f"{type(e).__name__}: {e}")]
     if k == "workers":
         real, loader = I.run_workers(case, scratch)
         return real, oracle_workers(case, real, loader)
